@@ -229,3 +229,61 @@ func TestEmitReplays(t *testing.T) {
 		}
 	}
 }
+
+// TestListCallables prints every registered callable with its formals
+// (development).
+func TestListCallables(t *testing.T) {
+	if os.Getenv("VERIF_C03_LIST") == "" {
+		t.Skip("development tool")
+	}
+	for _, c := range callables {
+		fmt.Printf("CALLABLE %s:%s %s req=%v opt=%v rest=%q keys=%v\n", c.Pkg, c.Name, c.FunType, c.Req, c.Opt, c.Rest, c.Keys)
+	}
+}
+
+// TestMatrixSize prints the size of each apply-matrix block (development).
+func TestMatrixSize(t *testing.T) {
+	if os.Getenv("VERIF_C03_MSIZE") == "" {
+		t.Skip("development tool")
+	}
+	count := map[string]int{}
+	per := map[string]int{}
+	enumApplyMatrix(0, 1, func(a Apply) bool {
+		count[a.Tag]++
+		per[a.Tag+" "+a.Pkg+":"+a.Name]++
+		return true
+	})
+	fmt.Println("MATRIX", count)
+	for k, v := range per {
+		if v > 1500 {
+			fmt.Println("  BIG", k, v)
+		}
+	}
+}
+
+// TestSweepMatrix runs the apply-matrix cases selected by VERIF_C03_MATRIX
+// ("tag" or "tag/pkg:name") in-process, does not stop at failures and prints
+// one line per failing case (development).
+func TestSweepMatrix(t *testing.T) {
+	sel := os.Getenv("VERIF_C03_MATRIX")
+	if sel == "" {
+		t.Skip("development sweep")
+	}
+	tag, qual, _ := strings.Cut(sel, "/")
+	total, bad := 0, 0
+	keys := map[string]int{}
+	enumApplyMatrix(0, 1, func(a Apply) bool {
+		if a.Tag != tag || (qual != "" && a.Pkg+":"+a.Name != qual) {
+			return true
+		}
+		total++
+		if f := checkApplyInner(a, &rec{}, 20*time.Second, 20*time.Second); f != nil {
+			bad++
+			if keys[f.Key]++; keys[f.Key] <= 3 {
+				fmt.Printf("MATRIX-FAIL key=%s via=%s args=%s\n", f.Key, a.Via, clip(describeArgs(a), 300))
+			}
+		}
+		return true
+	})
+	fmt.Printf("MATRIX-DONE sel=%s total=%d failing=%d keys=%v\n", sel, total, bad, keys)
+}
